@@ -47,4 +47,16 @@ def isIn (x : Int) (l : List Int) : Bool := l.contains x
 /-- `sum(l)` for ints -/
 def sum (l : List Int) : Int := l.foldl (· + ·) 0
 
+/-- `l.index(x)` (`ValueError` when absent) -/
+def index (l : List Int) (x : Int) : Res Int :=
+  match l.findIdx? (· == x) with
+  | some i => .ok (i : Int)
+  | none => .error .value
+
+/-- a note-type string read as a `Kind` (the model has the 17 library types only) -/
+def kindOfStr (s : String) : Res Kind :=
+  match Kind.ofStr? s with
+  | some k => .ok k
+  | none => .error .value
+
 end MV.Py
